@@ -76,6 +76,12 @@ async fn append_one(
         out.labels.insert("record_ends_on_1024_from_scan_base".into());
     }
     let value = m.make_value(index, term, len);
+    if let SizeClass::FileEnd(_) = size {
+        let l = record_len(index, term, len);
+        if m.open_cursor + l + 2 >= m.open_file_len && m.open_cursor + l <= m.open_file_len + 2 {
+            out.labels.insert("record_ends_at_allocated_file_end".into());
+        }
+    }
     let rec = LogRecordDto {
         index,
         term,
@@ -134,6 +140,7 @@ async fn run_l1_inner(case: &LogCase, dir: &std::path::Path, out: &mut L1Outcome
     let path = dir.join("log_1").to_string_lossy().into_owned();
     let s = case.start_index;
     let mut m = LogModel::new(s, case.pre_term);
+    m.file_end_enabled = case.aim_file_end;
     let mut split_off = s;
     let mut mgr = LogInnerManager::init(path.clone(), s, case.pre_term, split_off)
         .await
@@ -177,7 +184,11 @@ async fn run_l1_inner(case: &LogCase, dir: &std::path::Path, out: &mut L1Outcome
                     }
                     m.term += 1;
                     // removed suffix must be unreadable immediately
-                    observe(&mut mgr, &m, &format!("{} (right after delete-from {})", what, k), false).await?;
+                    if !case.sparse_observe {
+                        observe(&mut mgr, &m, &format!("{} (right after delete-from {})", what, k), false).await?;
+                    } else {
+                        out.labels.insert("reappend_right_after_delete_from_without_a_read".into());
+                    }
                     for i in 0..(*count as usize) {
                         let old_len = removed.get(i).map(|e| e.value_len).unwrap_or(40);
                         let len = match mode {
@@ -255,6 +266,14 @@ async fn run_l1_inner(case: &LogCase, dir: &std::path::Path, out: &mut L1Outcome
         // full comparison after every op that can change what is readable other than by appending;
         // after plain appends only the tail window is compared (the full log is compared at the
         // next such op, at every reopen and at the end)
+        if case.sparse_observe {
+            // no read-back (reads move the manager's file position); the end index is a plain getter
+            if mgr.get_end_index() != m.end() {
+                return Err(format!("{}: store end index {} != model end {}", what, mgr.get_end_index(), m.end()));
+            }
+            out.labels.insert("sparse_observation".into());
+            continue;
+        }
         match op {
             LogOp::Append { .. } | LogOp::AppendMany { .. } | LogOp::BumpTerm | LogOp::Read { .. } => {
                 observe_tail(&mut mgr, &m, &what).await?;
